@@ -461,6 +461,11 @@ pub fn catalogue(scn: &Scn) -> Vec<(&'static str, bool)> {
     if !pools_of(scn).expired.is_empty() {
         v.push(("expired-input", true));
     }
+    if !pools_of(scn).leaving.is_empty() {
+        // an extra, correctly signed user transaction spends an output that the candidate block's own rebroadcast
+        // (ATR) transaction consumes as well: one output, two spenders in one block
+        v.push(("spends-output-being-rebroadcast", false));
+    }
     v
 }
 
@@ -470,6 +475,9 @@ pub struct Pools {
     pub other: Vec<Slip>,
     /// still in the utxo set but created more than a genesis period before the candidate block
     pub expired: Vec<Slip>,
+    /// the part of `expired` that leaves the window with the candidate block (created exactly one block below the
+    /// candidate's floor), largest first: what the candidate's rebroadcast transactions consume
+    pub leaving: Vec<Slip>,
 }
 
 /// apply one edit to the ordered user transactions; returns None when the edit has no material in this state.
@@ -568,6 +576,13 @@ pub fn apply_edit(f: &Factory, base: &[Transaction], e: &Edit, pools: &Pools) ->
                 ts[p].from.push(s);
             }
             ts[p].sign(&key(owner).1);
+        }
+        "spends-output-being-rebroadcast" => {
+            let s = pools.leaving.get(p % pools.leaving.len().max(1))?.clone();
+            let o = owner_of(&s.public_key);
+            let t = mk_tx(f, &[s], o, ATTACKER, 210 + p as u8);
+            ts.push(t);
+            signers.push(o);
         }
         "block-double-spend" => {
             let i = ipx(&ts[p]);
@@ -932,7 +947,10 @@ fn c01_classes(tx: &Transaction, pre: &Ledger, seen: &mut HashSet<SaitoUTXOSetKe
     let mut v = vec![];
     if legit_system {
         for s in tx.from.iter().filter(|s| s.amount > 0) {
-            seen.insert(s.get_utxoset_key());
+            if !seen.insert(s.get_utxoset_key()) {
+                // the protocol's own rebroadcast consumes an output that another transaction of the block spends too
+                v.push("accepts-output-spent-by-transaction-and-rebroadcast".to_string());
+            }
         }
         return v;
     }
@@ -1131,7 +1149,9 @@ fn pools_of(scn: &Scn) -> Pools {
     let fl = floor_of(scn);
     let mut expired: Vec<Slip> = l.spendable.values().filter(|s| s.block_id < fl && s.amount > 0).cloned().collect();
     expired.sort_by_key(|s| (s.block_id, s.tx_ordinal, s.slip_index));
-    Pools { victim: slips_from(&l, VICTIM, fl), spent: l.spent.clone(), other: scn.other_branch.clone(), expired }
+    let mut leaving: Vec<Slip> = expired.iter().filter(|s| s.block_id + 1 == fl).cloned().collect();
+    leaving.sort_by_key(|s| std::cmp::Reverse(s.amount));
+    Pools { victim: slips_from(&l, VICTIM, fl), spent: l.spent.clone(), other: scn.other_branch.clone(), expired, leaving }
 }
 
 /// measure the defect flags of the tree under test by replaying the witnesses on the real code
@@ -1246,7 +1266,11 @@ pub async fn tx_case(out: &mut Out, w: &World, ename: &'static str, p: usize, ip
         return false;
     };
     // the edited transaction (for block-double-spend: the added one)
-    let idx = if (ename == "block-double-spend" && ip == 1) || ename == "staking-tx-unsigned-stakes-foreign-output" { user.len() - 1 } else { p };
+    let idx = if (ename == "block-double-spend" && ip == 1) || ename == "staking-tx-unsigned-stakes-foreign-output" || ename == "spends-output-being-rebroadcast" {
+        user.len() - 1
+    } else {
+        p
+    };
     let tx = &user[idx];
     let mut ids = Ids::default();
     let o = run_tx(&w.node, tx).await;
